@@ -290,7 +290,7 @@ CHECK_RE = re.compile(
     r"^Check (\d+): ([^\n]+)\n\t - Status: (\w+)\n\t - Description: \"(.*?)\"\n\t - Location: (.*?)$",
     re.M | re.S)
 
-INFRA_DESCR = ("unwinding assertion", "VERIF-MODEL-BOUND", "VERIF-LOST-ANCHOR", "free argument must be dynamic object", "is not currently supported by Kani",
+INFRA_DESCR = ("unwinding assertion", "VERIF-MODEL-BOUND", "VERIF-LOST-ANCHOR", "free argument must be", "free argument has offset zero", "rust_dealloc must be called on an object whose allocated size matches", "is not currently supported by Kani",
                "unsupported", "recursion unwinding")
 
 
